@@ -2173,6 +2173,7 @@ class PyCdlib:
                                                 None)
 
         zero_length_inodes = {}  # type: Dict[int, inode.Inode]
+        seen_dir_extents = set([abs_file_entry_extent])  # type: Set[int]
         udf_file_entries = collections.deque([self.udf_root])
         while udf_file_entries:
             udf_file_entry = udf_file_entries.popleft()
@@ -2226,6 +2227,12 @@ class PyCdlib:
                     next_entry.file_ident = file_ident
 
                     if file_ident.is_dir():
+                        # A directory is named by one File Identifier only;
+                        # coming across its File Entry again means that the
+                        # directories form a loop, which would never end.
+                        if abs_file_entry_extent in seen_dir_extents:
+                            raise pycdlibexception.PyCdlibInvalidISO('UDF directories form a loop')
+                        seen_dir_extents.add(abs_file_entry_extent)
                         udf_file_entries.append(next_entry)
                     else:
                         if next_entry.get_data_length() > 0:
